@@ -1,6 +1,9 @@
 package main
 
 import (
+	"math/big"
+	"sort"
+	"strconv"
 	"bufio"
 	"encoding/json"
 	"fmt"
@@ -210,11 +213,17 @@ type goBuilder struct {
 	pkg   *types.Package
 	depth int
 	note  []string
+	rt    *rtGen
+	query string
+	stripped bool
 }
 
 func (g *goBuilder) qual(p *types.Package) string {
 	if p == g.pkg {
 		return ""
+	}
+	if g.rt != nil {
+		g.rt.imports[p.Path()] = p.Name()
 	}
 	return p.Name()
 }
@@ -232,7 +241,7 @@ func (g *goBuilder) importsOK(t types.Type) bool {
 		}
 		switch x := t.(type) {
 		case *types.Named:
-			if x.Obj().Pkg() != nil && x.Obj().Pkg() != g.pkg {
+			if x.Obj().Pkg() != nil && x.Obj().Pkg() != g.pkg && !x.Obj().Exported() {
 				ok = false
 			}
 		case *types.Pointer:
@@ -270,7 +279,14 @@ func (g *goBuilder) value(v *Val, t types.Type) (string, error) {
 				return "", fmt.Errorf("non-integer model value %s", vals[0])
 			}
 			if lo, hi, ok := intRange(u); ok && (lo.Int64() > n && lo.IsInt64() || hi.IsInt64() && hi.Int64() < n) {
-				return "", fmt.Errorf("model value out of range")
+				if !g.stripped || !hi.IsInt64() {
+					return "", fmt.Errorf("model value out of range")
+				}
+				// a model of the quantifier-free part ignores the typing
+				// axioms: wrap it into the type (only a candidate input)
+				w := hi.Int64() - lo.Int64() + 1
+				n = ((n-lo.Int64())%w+w)%w + lo.Int64()
+				vals[0] = fmt.Sprint(n)
 			}
 			if u.Kind() == types.Uint64 || u.Kind() == types.Uint || u.Kind() == types.Uintptr {
 				return fmt.Sprintf("%s(%s)", g.typeStr(t), strings.Trim(vals[0], "()- ")), nil
@@ -351,6 +367,9 @@ func (g *goBuilder) value(v *Val, t types.Type) (string, error) {
 		if id, _ := modelInt(vals[0]); id == 0 {
 			return "nil", nil
 		}
+		if nt, ok := u.Elem().(*types.Named); ok && nt.Obj().Pkg() != nil && nt.Obj().Pkg() != g.pkg && nt.Obj().Pkg().Path() == modPath+"/parser" && nt.Obj().Name() == "Parser" {
+			return g.parserValue(v, u, st)
+		}
 		var fields []string
 		for i := 0; i < st.NumFields(); i++ {
 			fld := st.Field(i)
@@ -361,6 +380,12 @@ func (g *goBuilder) value(v *Val, t types.Type) (string, error) {
 			s, err := g.value(fv, fld.Type())
 			if err != nil {
 				return "", fmt.Errorf("field %s: %v", fld.Name(), err)
+			}
+			if !fld.Exported() && fld.Pkg() != g.pkg {
+				if s == "nil" || s == "0" || s == "false" {
+					continue
+				}
+				return "", fmt.Errorf("unexported field %s of another package", fld.Name())
 			}
 			fields = append(fields, fld.Name()+": "+s)
 		}
@@ -379,6 +404,18 @@ func (g *goBuilder) value(v *Val, t types.Type) (string, error) {
 		}
 		return fmt.Sprintf("%s{%s}", g.typeStr(t), strings.Join(fields, ", ")), nil
 	case *types.Interface, *types.Signature, *types.Map:
+		if mt, ok := u.(*types.Map); ok && v.K == KMap {
+			if s, err := g.mapValue(v, t, mt); err == nil {
+				return s, nil
+			} else if err != errNilMap {
+				return "", err
+			}
+		}
+		if it, ok := u.(*types.Interface); ok && v.K == KIface {
+			if s, err := g.readerValue(v, it); err == nil {
+				return s, nil
+			}
+		}
 		var tt string
 		switch v.K {
 		case KIface:
@@ -397,6 +434,210 @@ func (g *goBuilder) value(v *Val, t types.Type) (string, error) {
 		return "", fmt.Errorf("cannot construct a non-nil %s from the model", g.typeStr(t))
 	}
 	return "", fmt.Errorf("cannot construct a value of type %s", g.typeStr(t))
+}
+
+// parserValue builds a *parser.Parser outside package parser, where its
+// fields cannot be set: a new parser over the model's file content, moved to
+// the model's virtual position from+pos.  This is the abstract state
+// (file, position) that the parser's invariant parser.inv ties the concrete
+// buffer to; every contract that takes a parser requires that invariant.
+func (g *goBuilder) parserValue(v *Val, pt *types.Pointer, st *types.Struct) (string, error) {
+	field := func(name string) (*Val, types.Type) {
+		for i := 0; i < st.NumFields(); i++ {
+			fld := st.Field(i)
+			if fld.Name() == name {
+				loc := &PtrInfo{Heap: structHeapPrefix(pt.Elem()), Base: []string{v.T}, Path: []PathElem{{Field: fld.Name()}}, Ty: fld.Type()}
+				g.f.pure++
+				fv := g.f.load(g.f.entry, &Val{K: KPtr, Ty: types.NewPointer(fld.Type()), P: loc}, fld.Type())
+				g.f.pure--
+				return fv, fld.Type()
+			}
+		}
+		return nil, nil
+	}
+	rv, rt := field("r")
+	from, _ := field("from")
+	pos, _ := field("pos")
+	if rv == nil || from == nil || pos == nil || rv.K != KIface {
+		return "", fmt.Errorf("parser fields not found")
+	}
+	it, ok := rt.Underlying().(*types.Interface)
+	if !ok {
+		return "", fmt.Errorf("parser reader type")
+	}
+	rd, err := g.readerValue(rv, it)
+	if err != nil || rd == "nil" {
+		return "", fmt.Errorf("parser reader: %v", err)
+	}
+	vals, err := g.s.getValues([]string{from.T, pos.T})
+	if err != nil {
+		return "", err
+	}
+	a, ok1 := modelInt(vals[0])
+	b, ok2 := modelInt(vals[1])
+	if !ok1 || !ok2 || a < 0 || b < 0 {
+		return "", fmt.Errorf("parser position not usable")
+	}
+	g.qual(pt.Elem().(*types.Named).Obj().Pkg())
+	return fmt.Sprintf("func() *parser.Parser { p := parser.New(%s); if err := p.SeekPos(%d); err != nil { panic(err) }; return p }()", rd, a+b), nil
+}
+
+var errNilMap = fmt.Errorf("nil map")
+
+// mapValue builds a Go map literal from the model: the domain is enumerated
+// key by key, which is feasible for key types of at most 16 bits.
+func (g *goBuilder) mapValue(v *Val, t types.Type, mt *types.Map) (string, error) {
+	vals, err := g.s.getValues([]string{v.T})
+	if err != nil {
+		return "", err
+	}
+	if ref, _ := modelInt(vals[0]); ref == 0 {
+		return "", errNilMap
+	}
+	kb := basicOf(mt.Key())
+	if kb != nil && kb.Info()&types.IsString != 0 {
+		return g.strMapValue(v, t, mt)
+	}
+	if kb == nil || kb.Info()&types.IsInteger == 0 {
+		return "", fmt.Errorf("map key type %s cannot be enumerated", g.typeStr(mt.Key()))
+	}
+	lo, hi, ok := intRange(kb)
+	if !ok || new(big.Int).Sub(hi, lo).BitLen() > 16 {
+		return "", fmt.Errorf("map key type %s has too many values to enumerate", g.typeStr(mt.Key()))
+	}
+	dom, _, _, ok := g.f.mapHeaps(g.f.entry, v, mt)
+	if !ok {
+		return "", fmt.Errorf("map heaps")
+	}
+	var terms []string
+	for k := lo.Int64(); k <= hi.Int64(); k++ {
+		terms = append(terms, sel(sel(dom, v.T), num(k)))
+	}
+	present, err := g.s.getValues(terms)
+	if err != nil {
+		return "", err
+	}
+	var elems []string
+	for i, p := range present {
+		if strings.TrimSpace(p) != "true" {
+			continue
+		}
+		k := lo.Int64() + int64(i)
+		kv := &Val{K: KInt, T: num(k), Ty: mt.Key()}
+		g.f.pure++
+		ev := g.f.mapValue(g.f.entry, v, kv, mt)
+		g.f.pure--
+		// the domain bit is known: read the stored value directly
+		s, err := g.value(ev, mt.Elem())
+		if err != nil {
+			return "", err
+		}
+		elems = append(elems, fmt.Sprintf("%d: %s", k, s))
+		if len(elems) > 5000 {
+			return "", fmt.Errorf("map too large for replay")
+		}
+	}
+	return fmt.Sprintf("%s{%s}", g.typeStr(t), strings.Join(elems, ", ")), nil
+}
+
+// strMapValue builds a string-keyed map: only the string literals of the
+// function are tried as keys (the model may contain further, unnamed keys,
+// which are dropped; the replay then runs on a smaller map).
+func (g *goBuilder) strMapValue(v *Val, t types.Type, mt *types.Map) (string, error) {
+	dom, _, _, ok := g.f.mapHeaps(g.f.entry, v, mt)
+	if !ok {
+		return "", fmt.Errorf("map heaps")
+	}
+	var elems []string
+	for _, lit := range sortedKeys(g.f.strs.lits) {
+		name := g.f.strs.lits[lit]
+		if !strings.Contains(g.query, "(declare-fun "+name+" ") && !strings.Contains(g.query, "(declare-const "+name+" ") {
+			continue
+		}
+		present, err := g.s.getValues([]string{sel(sel(dom, v.T), name)})
+		if err != nil || strings.TrimSpace(present[0]) != "true" {
+			continue
+		}
+		kv := &Val{K: KStr, T: name, Ty: mt.Key()}
+		g.f.pure++
+		ev := g.f.mapValue(g.f.entry, v, kv, mt)
+		g.f.pure--
+		s, err := g.value(ev, mt.Elem())
+		if err != nil {
+			return "", err
+		}
+		elems = append(elems, fmt.Sprintf("%q: %s", lit, s))
+	}
+	return fmt.Sprintf("%s{%s}", g.typeStr(t), strings.Join(elems, ", ")), nil
+}
+
+// readerValue builds a bytes.Reader for an interface whose methods a
+// bytes.Reader offers (io.Reader, io.ReadSeeker, io.ReaderAt, ...): its
+// content is file(r)[0:fsize(r)] and its cursor rpos(r) of the model.  Such a
+// reader never reports a fault and never reads short, so a model that relies
+// on either does not reproduce.  A writer becomes a bytes.Buffer.
+func (g *goBuilder) readerValue(v *Val, it *types.Interface) (string, error) {
+	vals, err := g.s.getValues([]string{v.Fs[0].T})
+	if err == nil {
+		if n, _ := modelInt(vals[0]); n == 0 {
+			return "nil", nil
+		}
+	}
+	readerMethods := map[string]bool{"Read": true, "Seek": true, "ReadAt": true, "ReadByte": true, "Len": true, "Size": true}
+	isReader, isWriter := it.NumMethods() > 0, it.NumMethods() > 0
+	for i := 0; i < it.NumMethods(); i++ {
+		m := it.Method(i).Name()
+		if !readerMethods[m] {
+			isReader = false
+		}
+		if m != "Write" && m != "WriteByte" && m != "WriteString" {
+			isWriter = false
+		}
+	}
+	if isWriter {
+		if g.rt != nil {
+			g.rt.imports["bytes"] = "bytes"
+		}
+		return "&bytes.Buffer{}", nil
+	}
+	if !isReader {
+		return "", fmt.Errorf("not a reader")
+	}
+	id := v.Fs[1].T
+	fsize := sel(g.entryHeap("G:fsize", "(Array Int Int)"), id)
+	rpos := sel(g.entryHeap("G:rpos", "(Array Int Int)"), id)
+	vals, err = g.s.getValues([]string{fsize, rpos})
+	if err != nil {
+		return "", err
+	}
+	n, ok1 := modelInt(vals[0])
+	pos, ok2 := modelInt(vals[1])
+	if !ok1 || !ok2 || n < 0 || n > 1<<16 {
+		return "", fmt.Errorf("file size %s not usable", vals[0])
+	}
+	file := sel(g.entryHeap("G:file", "(Array Int (Array Int Int))"), id)
+	var terms []string
+	for i := int64(0); i < n; i++ {
+		terms = append(terms, sel(file, num(i)))
+	}
+	var bs []string
+	if n > 0 {
+		bvals, err := g.s.getValues(terms)
+		if err != nil {
+			return "", err
+		}
+		for _, b := range bvals {
+			k, _ := modelInt(b)
+			bs = append(bs, fmt.Sprint(byte(k)))
+		}
+	}
+	if g.rt != nil {
+		g.rt.imports["bytes"] = "bytes"
+	}
+	if pos < 0 || pos > n {
+		pos = 0
+	}
+	return fmt.Sprintf("func() *bytes.Reader { r := bytes.NewReader([]byte{%s}); r.Seek(%d, 0); return r }()", strings.Join(bs, ", "), pos), nil
 }
 
 // replay tries to reproduce the failure of o on the real code.
@@ -432,7 +673,8 @@ func replayObligation(o *Obligation, eng *Engine, repo string) {
 		if o.Status == "unknown" && !stripped {
 			continue // the full query is known not to produce a model in time
 		}
-		s, res, err := startZ3(o.candidateQuery(stripped, sizes, at.bound), 10)
+		cq := o.candidateQuery(stripped, sizes, at.bound)
+		s, res, err := startZ3(cq, 10)
 		if err != nil {
 			fmt.Fprintf(&log, "cannot start solver: %v\n", err)
 			return
@@ -442,12 +684,13 @@ func replayObligation(o *Obligation, eng *Engine, repo string) {
 			s.close()
 			continue
 		}
-		g := &goBuilder{f: f, s: s, pkg: fn.Pkg.Pkg}
+		rt := newRtGen(f)
+		g := &goBuilder{f: f, s: s, pkg: fn.Pkg.Pkg, rt: rt, query: cq, stripped: stripped}
 		var args []string
 		var failed error
 		for _, p := range fn.Params {
 			if !g.importsOK(p.Type()) {
-				failed = fmt.Errorf("parameter %s has a type from another package", p.Name())
+				failed = fmt.Errorf("parameter %s has an unexported type of another package", p.Name())
 				break
 			}
 			a, err := g.value(f.regs[p], p.Type())
@@ -462,55 +705,193 @@ func replayObligation(o *Obligation, eng *Engine, repo string) {
 			fmt.Fprintf(&log, "model (quantifiers stripped=%v) cannot be turned into Go values: %v\n", stripped, failed)
 			continue
 		}
-		test, name := replayTestSource(f, o, args)
-		o.replayTest = test
-		out, failedRun := runReplayTest(repo, fn, test, name)
-		fmt.Fprintf(&log, "--- inputs (quantifiers stripped=%v): %s\n%s\n", stripped, strings.Join(args, " ; "), out)
-		if failedRun {
-			o.replayed = true
-			return
+		disabled := map[int]bool{}
+		for try := 0; try < 6; try++ {
+			rt = newRtGen(f)
+			for k, v := range g.rt.imports {
+				rt.imports[k] = v
+			}
+			tp := buildReplayTest(f, o, rt, args, disabled)
+			o.replayTest = tp.src
+			out, _ := runReplayTest(repo, fn, tp.src, tp.name)
+			if strings.Contains(out, "[build failed]") || strings.Contains(out, "[setup failed]") {
+				// drop the clauses whose rendering does not compile and retry
+				progress := false
+				for _, m := range buildErrLine.FindAllStringSubmatch(out, -1) {
+					ln, _ := strconv.Atoi(m[1])
+					if ci, ok := tp.lineClause[ln]; ok && !disabled[ci] {
+						disabled[ci] = true
+						progress = true
+					}
+				}
+				if progress {
+					continue
+				}
+				fmt.Fprintf(&log, "--- replay test does not build:\n%s\n", out)
+				break
+			}
+			fmt.Fprintf(&log, "--- inputs (quantifiers stripped=%v): %s\n%s\n", stripped, strings.Join(args, " ; "), out)
+			for _, n := range tp.notes {
+				fmt.Fprintf(&log, "    %s\n", n)
+			}
+			preBad := strings.Contains(out, "GVC-REPLAY-PRE-VIOLATED")
+			for ci := range disabled {
+				if ci < 0 {
+					preBad = preBad || stripped // an unchecked precondition: only the full model is known to satisfy it
+				}
+			}
+			if stripped && tp.untranslatedPre {
+				preBad = true
+			}
+			hit := strings.Contains(out, "GVC-REPLAY-POST") || strings.Contains(out, "panic: test timed out")
+			if strings.Contains(out, "GVC-REPLAY-PANIC") && (panicKinds[o.Kind] || f.con == nil || (!f.con.MayPanic && len(f.con.PanicsIf) == 0)) {
+				hit = true
+			}
+			if hit && !preBad {
+				o.replayed = true
+				return
+			}
+			if preBad {
+				fmt.Fprintf(&log, "    (input does not satisfy the preconditions on the real code, or this cannot be checked: not counted)\n")
+			}
+			break
 		}
 	}
 }
 
-// replayTestSource generates an in-package test calling the real function.
-func replayTestSource(f *FuncVC, o *Obligation, args []string) (string, string) {
+var buildErrLine = regexp.MustCompile(`zz_gvc_replay_test\.go:(\d+):`)
+
+var panicKinds = map[string]bool{"index": true, "slice": true, "nil": true, "div": true, "shift": true, "make": true, "typeassert": true, "panic": true}
+
+type replayTest struct {
+	src, name       string
+	lineClause      map[int]int // source line -> clause index (requires are negative: -1-i)
+	notes           []string
+	untranslatedPre bool
+}
+
+// buildReplayTest generates an in-package test that calls the real function
+// on the model input, checks the requires clauses before and the ensures
+// clauses after the call.
+func buildReplayTest(f *FuncVC, o *Obligation, rt *rtGen, args []string, disabled map[int]bool) *replayTest {
 	fn := f.fn
-	name := "TestGvcReplay"
-	var sb strings.Builder
-	fmt.Fprintf(&sb, "package %s\n\nimport \"testing\"\n\n", fn.Pkg.Pkg.Name())
-	fmt.Fprintf(&sb, "// generated by gvc replay for obligation %s\n", strings.ReplaceAll(o.Name, "\n", " "))
-	fmt.Fprintf(&sb, "func %s(t *testing.T) {\n", name)
-	sb.WriteString("\tdefer func() {\n\t\tif r := recover(); r != nil {\n\t\t\tt.Fatalf(\"GVC-REPLAY-PANIC: %v\", r)\n\t\t}\n\t}()\n")
-	call := ""
+	tp := &replayTest{name: "TestGvcReplay", lineClause: map[int]int{}}
 	sig := fn.Signature
-	if sig.Recv() != nil {
-		fmt.Fprintf(&sb, "\trecv := %s\n", args[0])
-		call = "recv." + fn.Name() + "(" + strings.Join(args[1:], ", ") + ")"
-	} else {
-		call = fn.Name() + "(" + strings.Join(args, ", ") + ")"
+	var pnames []string
+	for i, p := range fn.Params {
+		n := p.Name()
+		if f.con != nil && i < len(f.con.Params) && f.con.Params[i] != "" && f.con.Params[i] != "_" {
+			n = f.con.Params[i]
+		}
+		if n == "" || n == "_" {
+			n = fmt.Sprintf("gvcArg%d", i)
+		}
+		pnames = append(pnames, n)
 	}
-	n := sig.Results().Len()
-	if n == 0 {
-		fmt.Fprintf(&sb, "\t%s\n", call)
+	var body strings.Builder
+	line := 0
+	emit := func(s string) {
+		body.WriteString(s)
+		line += strings.Count(s, "\n")
+	}
+	emit(fmt.Sprintf("// generated by gvc replay for obligation %s\n", strings.ReplaceAll(o.Name, "\n", " ")))
+	emit(fmt.Sprintf("func %s(t *testing.T) {\n", tp.name))
+	for i, a := range args {
+		emit(fmt.Sprintf("\tvar %s %s = %s\n\t_ = %s\n", pnames[i], rt.typeStr(fn.Params[i].Type()), a, pnames[i]))
+	}
+	clauseLines := func(kind string, idx int, src, code string) {
+		start := line
+		emit(fmt.Sprintf("\tif !gvcCheck(t, %q, %q, func() bool { return %s }) {\n\t\treturn\n\t}\n", kind, src, code))
+		for l := start; l < line; l++ {
+			tp.lineClause[l] = idx
+		}
+	}
+	if f.con != nil {
+		for i, c := range f.con.Requires {
+			code, why := rt.clause(c.Expr)
+			if why != "" || disabled[-1-i] {
+				if why == "" {
+					why = "rendering does not compile"
+				}
+				tp.notes = append(tp.notes, fmt.Sprintf("requires not checked at run time (%s): %s", why, c.Text))
+				tp.untranslatedPre = true
+				continue
+			}
+			clauseLines("PRE", -1-i, c.Text, code)
+		}
+	}
+	for i, n := range pnames {
+		_ = i
+		emit(fmt.Sprintf("\tgvcPre_%s := gvcDeep(%s)\n\t_ = gvcPre_%s\n", n, n, n))
+	}
+	var rnames []string
+	for i := 0; i < sig.Results().Len(); i++ {
+		n := fmt.Sprintf("gvcRes%d", i)
+		if f.con != nil && i < len(f.con.Results) && f.con.Results[i] != "" && f.con.Results[i] != "_" {
+			n = f.con.Results[i]
+		}
+		rnames = append(rnames, n)
+		emit(fmt.Sprintf("\tvar %s %s\n\t_ = %s\n", n, rt.typeStr(sig.Results().At(i).Type()), n))
+	}
+	call := ""
+	if sig.Recv() != nil {
+		call = pnames[0] + "." + fn.Name() + "(" + strings.Join(pnames[1:], ", ") + ")"
 	} else {
-		var rs []string
-		for i := 0; i < n; i++ {
-			rs = append(rs, fmt.Sprintf("r%d", i))
-		}
-		fmt.Fprintf(&sb, "\t%s := %s\n", strings.Join(rs, ", "), call)
-		for _, r := range rs {
-			fmt.Fprintf(&sb, "\t_ = %s\n", r)
-		}
-		if o.Kind == "post" && f.con != nil {
-			// evaluate the violated postcondition when it is plain Go over results and parameters
-			if g := postAsGo(f, o, rs); g != "" {
-				fmt.Fprintf(&sb, "\tif !(%s) {\n\t\tt.Fatalf(\"GVC-REPLAY-POST: postcondition violated: %%s\", %q)\n\t}\n", g, o.Src)
+		call = fn.Name() + "(" + strings.Join(pnames, ", ") + ")"
+	}
+	if sig.Variadic() {
+		call = strings.TrimSuffix(call, ")") + "...)"
+	}
+	if len(rnames) > 0 {
+		call = strings.Join(rnames, ", ") + " = " + call
+	}
+	emit("\tfunc() {\n\t\tdefer func() {\n\t\t\tif r := recover(); r != nil {\n\t\t\t\tt.Fatalf(\"GVC-REPLAY-PANIC: %v\", r)\n\t\t\t}\n\t\t}()\n")
+	emit("\t\t" + call + "\n\t}()\n")
+	if f.con != nil {
+		for i, c := range f.con.Ensures {
+			if disabled[i] {
+				tp.notes = append(tp.notes, "ensures not checked at run time (rendering does not compile): "+c.Text)
+				continue
+			}
+			// conjuncts are rendered one by one so that a conjunct outside the
+			// subset (fresh, ghost state) does not hide the others
+			for _, cj := range flattenAnd(c.Expr, nil) {
+				code, why := rt.clause(cj)
+				if why != "" {
+					tp.notes = append(tp.notes, fmt.Sprintf("ensures not checked at run time (%s): %s", why, exprString(cj)))
+					continue
+				}
+				start := line
+				emit(fmt.Sprintf("\tgvcCheck(t, \"POST\", %q, func() bool { return %s })\n", exprString(cj), code))
+				for l := start; l < line; l++ {
+					tp.lineClause[l] = i
+				}
 			}
 		}
 	}
-	sb.WriteString("}\n")
-	return sb.String(), name
+	emit("}\n")
+	var head strings.Builder
+	fmt.Fprintf(&head, "package %s\n\nimport (\n\t\"reflect\"\n\t\"testing\"\n\t\"unsafe\"\n", fn.Pkg.Pkg.Name())
+	var paths []string
+	for p := range rt.imports {
+		if p != "reflect" && p != "testing" && p != "unsafe" {
+			paths = append(paths, p)
+		}
+	}
+	sort.Strings(paths)
+	for _, p := range paths {
+		fmt.Fprintf(&head, "\t%q\n", p)
+	}
+	head.WriteString(")\n\nvar _ = reflect.DeepEqual\nvar _ unsafe.Pointer\n")
+	headLines := strings.Count(head.String(), "\n")
+	// shift the line map by the header
+	shifted := map[int]int{}
+	for l, c := range tp.lineClause {
+		shifted[l+headLines+1] = c
+	}
+	tp.lineClause = shifted
+	tp.src = head.String() + body.String() + "\n" + rt.specSources() + rtHelpers
+	return tp
 }
 
 var plainGo = regexp.MustCompile(`^[A-Za-z0-9_ ().,<>=!&|+\-*/%\[\]:]+$`)
@@ -642,6 +1023,20 @@ func (f *FuncVC) predeclare(t types.Type, depth int) {
 	case *types.Struct:
 		for i := 0; i < u.NumFields(); i++ {
 			f.predeclare(u.Field(i).Type(), depth+1)
+		}
+	case *types.Map:
+		if dom, _, ksort, ok := f.mapHeaps(f.entry, nil, u); ok {
+			_ = dom
+			for _, l := range leavesOfType(u.Elem()) {
+				f.heap(f.entry, mapHeapPrefix(u)+".val"+l.Path, "(Array Int (Array "+ksort+" "+l.Sort+"))")
+			}
+		}
+		f.predeclare(u.Elem(), depth+1)
+	case *types.Interface:
+		if f.eng.cs.Specs["file"] != nil {
+			f.heap(f.entry, "G:file", "(Array Int (Array Int Int))")
+			f.heap(f.entry, "G:fsize", "(Array Int Int)")
+			f.heap(f.entry, "G:rpos", "(Array Int Int)")
 		}
 	}
 }
